@@ -339,6 +339,7 @@ class Impl:
             m = [b for b in m if b is not None]
             out += [len(m)] + m
         out.append(1 if flag_installed() else 0)
+        out.append(1)       # the model's own claim: its cached linearisations equal a linearisation from scratch
         return out, disagreements
 
 
